@@ -174,11 +174,18 @@ func c04Eval(c *fw.Ctx, data any) {
 	var msg util.Message
 	var perr error
 	in := append([]byte(nil), wire...)
-	p, pv, st := fw.Recover(func() { msg, perr = of.Parse(in) })
-	if p {
-		c.Violation(kind, "panic", fw.LibFrame(st), fmt.Sprintf("%s\n%s\ninput: %s", pv, fw.TrimStack(st), hexHead(wire)))
+	vd := fw.Guard(len(in), func() { msg, perr = of.Parse(in) })
+	switch vd.Class {
+	case "panic":
+		c.Violation(kind, "panic", fw.LibFrame(vd.Stack), fmt.Sprintf("%s\n%s\ninput: %s", vd.Panic, fw.TrimStack(vd.Stack), hexHead(wire)))
+		return
+	case "cpu", "alloc":
+		c.Violation(kind, "hang", "parse:"+vd.Class, fmt.Sprintf("the parser exceeded its %s budget on a conformant message (cpu %v, %d bytes allocated): %s", vd.Class, vd.CPU, vd.Alloc, hexHead(wire)))
+		c.Poison()
 		return
 	}
+	var p bool
+	var pv, st string
 	if perr != nil {
 		c.Violation(kind, "parse-error", c04ErrLocus(m, chain), fmt.Sprintf("parser returned error %q for conformant bytes %s", perr.Error(), hexHead(wire)))
 		return
